@@ -195,8 +195,12 @@ extern int mpt_graph_set(MPT_STRUCT(graph) *gr, const char *name, MPT_INTERFACE(
 			gr->align = def_graph.align;
 			return 0;
 		}
-		if (len) {
+		if (len > 0) {
 			return 0;
+		}
+		/* number out of range, text form needs a non-number */
+		if (len != MPT_ERROR(BadType)) {
+			return len;
 		}
 		if ((len = src->_vptr->convert(src, 's', &v)) < 0) {
 			return len;
